@@ -345,6 +345,7 @@ class World(object):
 
     def new_broker(self, seeds, store_skips):
         b = dr.Broker()
+        b.vworld = self
         b.store_skips = store_skips
         for cid, v in seeds:
             b[self.comps[cid]] = uncanon_val(v)
@@ -485,9 +486,11 @@ def instrument(world, b):
         if getattr(orig, "_vwrapped", False):
             orig = orig._vorig
 
-        def wrapped(broker, _orig=orig, _cid=cid, _d=d):
+        def wrapped(broker, _orig=orig, _cid=cid, _d=d, _world=world):
             if hasattr(broker, "vlog") and "attempts" in broker.vlog:
-                broker.vlog["attempts"].append(_cid)
+                # a component of ANOTHER world attempted on this world's broker is logged as -1 (it is outside any graph
+                # this world hands to the engine)
+                broker.vlog["attempts"].append(_cid if getattr(broker, "vworld", _world) is _world else -1)
             return _orig(broker)
         wrapped._vwrapped = True
         wrapped._vorig = orig
